@@ -512,7 +512,16 @@ func genCase(r *Rng, o GenOpts) Case {
 		for j := 0; j < k; j++ {
 			v := r.Intn(off)
 			pos := r.Intn(len(es) + 1)
-			es = append(es[:pos], append([]edgeI{{v, v}}, es[pos:]...)...)
+			ins := []edgeI{{v, v}}
+			if r.Bool(30) {
+				// two self-loops in a row (the same node twice, or two nodes): a removal loop that skips the element after a removed one
+				w := v
+				if r.Bool(50) {
+					w = r.Intn(off)
+				}
+				ins = append(ins, edgeI{w, w})
+			}
+			es = append(es[:pos], append(ins, es[pos:]...)...)
 		}
 		kind += "+loops"
 	}
